@@ -1631,7 +1631,6 @@ def _is_ok(side):
 def finding_id(c, impl_obs, kind):
     """A known id only when BOTH the input class and the observed failure are those of that finding's mechanism:
          sorted-typeerror-incomparable-keys   : a TypeError where a key was due, on a value with incomparable sort keys
-         masked-array-key-unhashable          : an unhashable key for a value with masked elements
          pandas-key-loses-index-dtype-order   : DIFFERENT values (one holding a Series/DataFrame) with EQUAL keys
          sorted-partial-order-frozenset-keys  : EQUAL values with DIFFERENT keys (frozenset sort keys)
          diskcache-pickle-key-hashseed-frozenset : pickle cases with a seed dependent frozenset
@@ -1657,7 +1656,7 @@ def finding_id(c, impl_obs, kind):
             if side == ["err", "TypeError"]:
                 return "sorted-typeerror-incomparable-keys" if _feat_incomparable(val) else None
             if _is_ok(side) and side[1] == ["bool", 0]:
-                return "masked-array-key-unhashable" if _feat_masked(val) else None
+                return None
         if not (_is_ok(sv) and _is_ok(sw)) or impl_obs[3] != ["bool", 1] or impl_obs[4] != ["bool", 1]:
             return None
         collide, split = eq == ["bool", 1], eq == ["bool", 0]
